@@ -113,13 +113,15 @@ SUITE_WRAPPED = [
 ]
 
 
-def build_suite():
+def build_suite(program='tests'):
     """The repository's gtest suite linked with the recorder harness/suite/suite_wrap.cpp (ld --wrap on the public entry
     points of Encoder / Decoder / Status / TECMP::Decoder).  Returns the binary, or None when it cannot be built
     (a changed signature of a wrapped function, a test that no longer compiles): the stage is then skipped and says so -
     it is an additional source of recorded behaviours, never the only stage of a check."""
     h = hashlib.sha256()
-    files = sorted(glob.glob(os.path.join(REPO, 'src', '*.cpp')) + glob.glob(os.path.join(REPO, 'tests', '*')) +
+    h.update(program.encode())
+    prog_dir = 'tests' if program == 'tests' else 'example'
+    files = sorted(glob.glob(os.path.join(REPO, 'src', '*.cpp')) + glob.glob(os.path.join(REPO, prog_dir, '*')) +
                    glob.glob(os.path.join(REPO, 'include', '**', '*.h'), recursive=True) +
                    glob.glob(os.path.join(HARNESS, 'suite', '*.cpp')) + [os.path.join(HARNESS, x) for x in ('common.cpp', 'common.h', 'ops.h')])
     for f in files:
@@ -137,13 +139,14 @@ def build_suite():
             shutil.rmtree(old, ignore_errors=True)
     tmp = d + '.tmp%d' % os.getpid()
     os.makedirs(tmp, exist_ok=True)
-    srcs = sorted(glob.glob(os.path.join(REPO, 'src', '*.cpp'))) + sorted(glob.glob(os.path.join(REPO, 'tests', '*.cpp'))) + \
+    srcs = sorted(glob.glob(os.path.join(REPO, 'src', '*.cpp'))) + sorted(glob.glob(os.path.join(REPO, prog_dir, '*.cpp'))) + \
         [os.path.join(HARNESS, 'common.cpp')] + sorted(glob.glob(os.path.join(HARNESS, 'suite', '*.cpp')))
     t0 = time.time()
 
     def comp(src):
         obj = os.path.join(tmp, os.path.basename(os.path.dirname(src)) + '_' + os.path.basename(src) + '.o')
-        return src, sh('g++ -std=c++17 -O1 -g -D%s -I%s/include -I%s -c %s -o %s' % (GUARD, REPO, HARNESS, src, obj))
+        return src, sh('g++ -std=c++17 -O1 -g -D%s %s -I%s/include -I%s -c %s -o %s'
+                       % (GUARD, '' if program == 'tests' else '-DSUITE_EXAMPLE', REPO, HARNESS, src, obj))
 
     err = None
     with ThreadPoolExecutor(NCPU) as ex:
@@ -151,20 +154,20 @@ def build_suite():
             if r.returncode != 0 and err is None:
                 err = 'compile failed: %s\n%s' % (src, r.stdout[-1500:])
     if err is None:
-        r = sh('g++ -g %s/*.o %s -lgmock -lgtest -lpthread -o %s/suite && rm -f %s/*.o'
-               % (tmp, ' '.join('-Wl,--wrap=' + m for m in SUITE_WRAPPED), tmp, tmp))
+        r = sh('g++ -g %s/*.o %s %s -lpthread -o %s/suite && rm -f %s/*.o'
+               % (tmp, ' '.join('-Wl,--wrap=' + m for m in SUITE_WRAPPED), '-lgmock -lgtest' if program == 'tests' else '', tmp, tmp))
         if r.returncode != 0:
             err = 'link failed\n' + r.stdout[-1500:]
     if err is not None:
         sh('rm -f %s/*.o' % tmp)
         open(os.path.join(tmp, 'FAILED'), 'w').write(err)
-        log('the recorded test suite could not be built, its stage is skipped: ' + err.splitlines()[0])
+        log('the recorded %s program could not be built, its stage is skipped: %s' % (program, err.splitlines()[0]))
     try:
         os.rename(tmp, d)
     except OSError:
         shutil.rmtree(tmp, ignore_errors=True)
     if err is None:
-        log('built the recorded test suite in %.1fs' % (time.time() - t0))
+        log('built the recorded %s program in %.1fs' % (program, time.time() - t0))
     return exe if os.path.exists(exe) else None
 
 
